@@ -30,7 +30,7 @@ def summarize(report):
         kind = "ubsan: " + m.group(1) if m else "crash"
     fn = None
     for m in re.finditer(r"#\d+ 0x[0-9a-f]+ in (\w+)", report):
-        if m.group(1).startswith(("Buffer_", "AEAD_", "HeaderProtection_", "create_ctx", "parse_uint_arg"))  # C frames of the extension:
+        if m.group(1).startswith(("Buffer_", "AEAD_", "HeaderProtection_", "create_ctx", "parse_uint_arg")):  # C frames of the extension
             fn = m.group(1)
             break
     rw = re.search(r"\b(READ|WRITE) of size (\d+)", report)
